@@ -96,7 +96,7 @@ theorem decTy_encTy (o : Opts) (hc : CachesConsistent o) (t : Ty) (f : Bytes) (f
         have : (encTy o t).length ≥ 1 := by
           cases t <;> simp [encTy, regPrefix] <;> (try split) <;> simp
         simp; omega
-      simp only [e1, e2, ↓reduceIte, hne, rd32_be32 _ hk, h]
+      simp only [e1, e2, ↓reduceIte, lenLt_eq, decide_eq_true_eq, hne, rd32_be32 _ hk, h]
       cases t.composite <;> simp [Ty.composite, hs]
   | .map k v, hd, hf, hcf =>
     have ihk := fun f fuel => decTy_encTy o hc k f fuel
